@@ -37,7 +37,8 @@ ASSUMPTIONS = [
 ]
 REPORT_COUNTERS = ["signature_sets", "calls", "unique_applicable_ran", "params_identity_checked", "defaults_identity_checked",
                    "results_identity_checked", "exceptions_identity_checked", "none_applicable_checked", "self_checked",
-                   "entry_shapes", "zero_positional_calls", "kw_with_omitted_optional", "nested_delegations_checked"]
+                   "entry_shapes", "zero_positional_calls", "kw_with_omitted_optional", "nested_delegations_checked",
+                   "sets_with_never_true_decoy"]
 
 TYPES = ["int", "str", "float"]
 
@@ -67,6 +68,20 @@ def gen_case(rng, params, idx):
                 kws.append({"n": k, "t": rng.choice(TYPES), "req": rng.random() < 0.5})
         methods.append({"mid": mid, "pos": pos, "kw": kws, "prio": 0, "self": is_method,
                         "kind": "raise" if rng.random() < 0.25 else "ret", "rewritten": rng.random() < 0.4})
+    if rng.random() < 0.35:
+        # a decoy: the same signature as one of the methods with one annotation replaced by a value condition that
+        # never holds - every call aimed at that method first goes through the generated condition check and falls
+        # through to it: the arguments, defaults and keywords must survive that path unchanged
+        # (the condition sits on a *required* parameter: on an omitted optional one it would not be evaluated, and the
+        # decoy and its original would coincide on everything supplied - an unspecified tie)
+        cands = [m for m in methods if any(not p.get("opt") for p in m["pos"]) or any(k["req"] for k in m["kw"])]
+        if cands:
+            src = rng.choice(cands)
+            d = {"mid": 10 + src["mid"], "pos": [dict(p) for p in src["pos"]], "kw": [dict(k) for k in src["kw"]], "prio": 0,
+                 "self": is_method, "kind": "ret", "rewritten": False, "decoy": True}
+            slot = rng.choice([p for p in d["pos"] if not p.get("opt")] + [k for k in d["kw"] if k["req"]])
+            slot["t"] = ["D", slot["t"], "never"]
+            methods.append(d)
     return {"methods": methods, "is_method": is_method, "valseed": rng.randrange(1 << 30)}
 
 
@@ -128,6 +143,8 @@ def check_case(spec, res):
         forget(files)
         return
     res.count("signature_sets")
+    if any(m.get("decoy") for m in spec["methods"]):
+        res.count("sets_with_never_true_decoy")
     res.sample(spec)
     import linecache
     entry = o.dispatch.__code__.co_filename
@@ -140,8 +157,8 @@ def check_case(spec, res):
         holder = type("Holder", (), {"f": o})()
     rng = random.Random(spec["valseed"])
     names = tuple(x for x in (getattr(o, "shortname", None), getattr(o, "__name__", None)) if x)
-    sigkey = [[[p["t"], p.get("opt", False), p.get("po", False)] for p in m["pos"]] +
-              [[k["n"], k["t"], k["req"]] for k in m["kw"]] for m in spec["methods"]]
+    sigkey = [[[T.tname(p["t"]), p.get("opt", False), p.get("po", False)] for p in m["pos"]] +
+              [[k["n"], T.tname(k["t"]), k["req"]] for k in m["kw"]] for m in spec["methods"]]
     maxpos = max(len(m["pos"]) for m in spec["methods"])
     for npos_given in range(0, 4):
         for kwset in ((), ("k1",), ("k2",), ("k1", "k2")):
@@ -150,7 +167,7 @@ def check_case(spec, res):
                 kt = {k: rng.choice(TYPES) for k in kwset}
                 if rep < 2:
                     # aim at one method's declared types so that the call is applicable to something
-                    cands = [m for m in spec["methods"] if len(m["pos"]) >= npos_given
+                    cands = [m for m in spec["methods"] if not m.get("decoy") and len(m["pos"]) >= npos_given
                              and set(kwset) <= {k["n"] for k in m["kw"]}]
                     if cands:
                         m0 = rng.choice(cands)
@@ -160,6 +177,8 @@ def check_case(spec, res):
                 kargs = {k: mk[t]() for k, t in kt.items()}
                 app = []
                 for m in spec["methods"]:
+                    if m.get("decoy"):
+                        continue        # its value condition never holds
                     req = sum(1 for p in m["pos"] if not p.get("opt"))
                     if not (req <= npos_given <= len(m["pos"])):
                         continue
